@@ -199,6 +199,17 @@ LITERALS = [
 SERVERS = [("localhost", 80), ("localhost", 8080), ("evil.com", 80), ("::1", 80), ("::2", 8080),
            ("a.localhost", None), ("evillocalhost", None)]
 APIS = ["hit", "sansio", "wsgi", "request"]
+# round 2: other schemes (default-port stripping), every Request attribute that embeds the host, get_current_url
+APIS2 = ["sansio-https", "sansio-ws", "sansio-wss", "wsgi-https", "request.url", "request.base_url",
+         "request.host_url", "request.root_url", "wsgi.url", "wsgi.url-host"]
+PORTS2 = [":443", ":8080", ":99999", ":-1", ":08"]
+# trusted entries of other shapes: with a port, upper case, "wildcard" spellings (they are NOT patterns), punycode,
+# dot-prefixed IDN, an address literal with port, and two malformed ones (a malformed entry never helps a host)
+EXTRA_ENTRIES = ["localhost:8080", "LOCALHOST", "*.example.com", "*", "xn--bcher-kva.example", ".bücher.example",
+                 "[::1]:80", "[::1", "a..b", "evil.com.", ".com"]
+HOSTS2 = ["localhost", "localhost:8080", "a.localhost", "evillocalhost", "example.com", "a.example.com",
+          "evilexample.com", "*.example.com", "*", "x.bücher.example", "xn--bcher-kva.example", "evil.com",
+          "evil.com.", "a.evil.com", "com", "a.com", "[::1]", "[::1]:80", "[::2]", "[::1", "a..b", "[", "127.0.0.1"]
 
 
 def hosts(tier, nlabels):
@@ -223,8 +234,16 @@ class _Req(Request):
     pass
 
 
+SCHEME_OF = {"sansio": "http", "sansio-https": "https", "sansio-ws": "ws", "sansio-wss": "wss"}
+DECOYS = {  # headers that must NOT take part in the decision: they all name a trusted host
+    "HTTP_X_FORWARDED_HOST": "localhost", "HTTP_FORWARDED": "for=127.0.0.1;host=localhost;proto=http",
+    "HTTP_X_FORWARDED_SERVER": "localhost", "HTTP_X_HOST": "localhost", "HTTP_X_FORWARDED_FOR": "127.0.0.1",
+}
+
+
 def call_api(api, host, trusted, server=None):
-    """-> ('acc', value) | ('rej',) | ('exc', type name, text)"""
+    """-> ('acc', value) | ('rej',) | ('exc', type name, text).  trusted may be a list, a plain str, or None
+    (no validation asked for: then only 'no failure other than SecurityError' is judged)."""
     try:
         if api == "hit":
             r = sans.host_is_trusted(host, trusted)
@@ -233,22 +252,28 @@ def call_api(api, host, trusted, server=None):
             if r is False:
                 return ("rej",)
             return ("exc", "NotBool", repr(r))
-        if api == "sansio":
-            return ("acc", sans.get_host("http", host, server, trusted))
-        env = {"wsgi.url_scheme": "http", "REQUEST_METHOD": "GET", "PATH_INFO": "/", "SCRIPT_NAME": "",
-               "QUERY_STRING": "", "SERVER_PROTOCOL": "HTTP/1.1"}
+        if api in SCHEME_OF:
+            return ("acc", sans.get_host(SCHEME_OF[api], host, server, trusted))
+        env = {"wsgi.url_scheme": "https" if api.endswith("-https") else "http", "REQUEST_METHOD": "GET",
+               "PATH_INFO": "/p", "SCRIPT_NAME": "/s", "QUERY_STRING": "q=1", "SERVER_PROTOCOL": "HTTP/1.1"}
+        env.update(DECOYS)
         if server is not None:
             env["SERVER_NAME"] = server[0]
             if server[1] is not None:
                 env["SERVER_PORT"] = str(server[1])
         if host is not None:
             env["HTTP_HOST"] = host
-        if api == "wsgi":
+        if api in ("wsgi", "wsgi-https"):
             return ("acc", wz_wsgi.get_host(env, trusted))
-        if api == "request":
+        if api == "wsgi.url":
+            return ("acc", wz_wsgi.get_current_url(env, trusted_hosts=trusted))
+        if api == "wsgi.url-host":
+            return ("acc", wz_wsgi.get_current_url(env, host_only=True, trusted_hosts=trusted))
+        if api.startswith("request"):
             req = _Req(env)
             req.trusted_hosts = trusted
-            return ("acc", req.host)
+            attr = api.partition(".")[2] or "host"
+            return ("acc", getattr(req, attr))
         raise core.Broken(f"unknown api {api}")
     except SecurityError as e:
         if not (400 <= (e.code or 0) < 500):
@@ -258,6 +283,17 @@ def call_api(api, host, trusted, server=None):
         raise
     except Exception as e:  # noqa: BLE001
         return ("exc", type(e).__name__, str(e)[:80])
+
+
+def expected_host_value(api, eff):
+    """What a host-returning entry point may hand back for an accepted host: the Host header itself, minus the
+    scheme's default port - never something taken from another header."""
+    scheme = SCHEME_OF.get(api) or ("https" if api.endswith("-https") else "http")
+    if scheme in ("http", "ws") and eff.endswith(":80"):
+        return eff[:-3]
+    if scheme in ("https", "wss") and eff.endswith(":443"):
+        return eff[:-4]
+    return eff
 
 
 def effective_host(host, server):
@@ -274,34 +310,88 @@ def effective_host(host, server):
     return h
 
 
+HOST_APIS = {"sansio", "sansio-https", "sansio-ws", "sansio-wss", "wsgi", "wsgi-https", "request", "request.host"}
+
+
+def as_list(trusted):
+    if trusted is None:
+        return None
+    return [trusted] if isinstance(trusted, str) else list(trusted)
+
+
 def check_host_case(R, api, host, trusted, server=None):
     out = call_api(api, host, trusted, server)
     R.ev()
     R.count("executions")
     eff = effective_host(host, server)
-    ok = may_accept(eff, trusted)
+    tl = as_list(trusted)
+    ok = True if tl is None else may_accept(eff, tl)
     R.use("A:" + out[0], "A:api:" + api, "A:ref-may" if ok else "A:ref-must-reject")
+    if tl is None:
+        R.use("A:unvalidated:" + out[0])
+    if isinstance(trusted, str):
+        R.use("A:trusted-as-str")
     R.outcome(("A", out[0], ok))
-    if not plainly_listed(eff, trusted) and eff:
-        R.nontrivial(("A", eff, tuple(trusted)))
-    if ok and out[0] == "acc":
-        if any(t.startswith(".") for t in trusted) and not any(canon_name(split_port(eff)[0]) == canon_name(t) for t in trusted if not t.startswith(".")):
+    if tl is not None and not plainly_listed(eff, tl) and eff:
+        R.nontrivial(("A", eff, tuple(tl)))
+    if tl is not None and ok and out[0] == "acc":
+        if any(t.startswith(".") for t in tl) and not any(canon_name(split_port(eff)[0]) == canon_name(t) for t in tl if not t.startswith(".")):
             R.use("A:accepted-subdomain")
         if split_port(eff)[1] is not None:
             R.use("A:accepted-with-port")
-        if eff in trusted:
+        if eff in tl:
             R.use("A:accepted-equal")
         if not eff.isascii():
             R.use("A:accepted-idn")
-    rec = {"kind": "host", "api": api, "host": host, "trusted": list(trusted), "server": server, "outcome": out}
+    rec = {"kind": "host", "api": api, "host": host, "trusted": trusted if isinstance(trusted, str) else tl,
+           "server": server, "outcome": out}
     if out[0] == "exc":
         R.violation(f"host:{api}:exception:{out[1]}", rec)
     elif out[0] == "acc" and not ok:
         R.violation(f"host:{api}:accepted-untrusted", rec)
+    elif out[0] == "acc" and api in HOST_APIS:
+        want = expected_host_value(api, eff)
+        R.use("A:value-checked")
+        if out[1] != want:
+            R.violation(f"host:{api}:returned-other-host", rec)
+        elif want != eff:
+            R.use("A:default-port-stripped")
+
+
+def run_A2(unit, R, tier):
+    """Round 2: entry shapes, str-typed lists, other schemes / url attributes, unvalidated malformed hosts."""
+    _k, _what, shard, nshards = unit
+    base = ["localhost", ".localhost", "127.0.0.1", "[::1]", ".example.com"]
+    lists = [[e] for e in EXTRA_ENTRIES] + [[e, g] for e in EXTRA_ENTRIES for g in base] \
+        + [[g, e] for e in EXTRA_ENTRIES for g in base] + ["localhost", ".example.com", "[::1]", "*"]
+    hosts2 = HOSTS2 + [h + p for h in ("localhost", "a.example.com", "[::1]", "evil.com") for p in PORTS2 + PORTS]
+    n = 0
+    for h in hosts2:
+        for tl in lists:
+            n += 1
+            if n % nshards != shard:
+                continue
+            for api in APIS + APIS2:
+                check_host_case(R, api, h, tl)
+    # other schemes / url attributes over the round-1 lists, and with no validation requested at all
+    tls = trusted_lists("quick")
+    for i, h in enumerate(LITERALS + hosts2 + [x for x in hosts("quick", 1)]):
+        if i % nshards != shard:
+            continue
+        for api in APIS2:
+            for tl in tls[:12]:
+                check_host_case(R, api, h, tl)
+        for api in APIS[1:] + APIS2:
+            check_host_case(R, api, h, None)
+        for srv in SERVERS:
+            for api in ("request.url", "wsgi.url", "sansio-https", "wsgi-https"):
+                check_host_case(R, api, None, tls[3], srv)
 
 
 def run_A(unit, R, tier):
     _k, what, shard, nshards = unit
+    if what == "r2":
+        return run_A2(unit, R, tier)
     tls = trusted_lists(tier)
     if what == "lit":
         todo = [(h, None) for h in LITERALS] + [(None, s) for s in SERVERS] + [(None, None)]
@@ -348,10 +438,18 @@ class Spy:
         return "spy-evaluated"
 
 
+class _Sink:
+    def write(self, text):
+        pass
+
+    def flush(self):
+        pass
+
+
 class Dbg:
     """One real DebuggedApplication with harness-owned pin, secret, clock, spy frames."""
 
-    def __init__(self, evalex=True, pin_on=True):
+    def __init__(self, evalex=True, pin_on=True, trusted=None):
         self.inner_hits = 0
 
         def inner(environ, start_response):
@@ -367,6 +465,8 @@ class Dbg:
             raise core.Broken(f"DebuggedApplication attributes changed: {sorted(set(vars(app)) ^ APP_ATTRS)}")
         if app.trusted_hosts != [".localhost", "127.0.0.1"]:
             raise core.Broken(f"default trusted_hosts changed: {app.trusted_hosts}")
+        if trusted is not None:
+            app.trusted_hosts = trusted            # the documented way to configure it: assign on the instance
         self.app = app
         self.pin_on = pin_on
         self.evalex = evalex
@@ -406,6 +506,23 @@ class Dbg:
             "malformed": f"{now}{good}",
             "bad-ts": f"x{now}|{good}",
             "other-name": f"{now}|{good}",
+            # round 2: more value shapes
+            "extra-sep": f"{now}|{good}|x",
+            "sep-in-front": f"|{now}|{good}",
+            "neg-ts": f"-5|{good}",
+            "zero-ts": f"0|{good}",
+            "empty-ts": f"|{good}",
+            "empty-hash": f"{now}|",
+            "hash-prefix": f"{now}|{good[:-1]}",
+            "hash-extra": f"{now}|{good}0",
+            "hash-of-digits": f"{now}|{dbg.hash_pin(PIN.replace('-', ''))}",
+            "float-ts": f"{now}.0|{good}",
+            "huge-ts": f"{10 ** 20}|{good}",
+            "hash-upper": f"{now}|{good.upper()}",
+            "space-ts": f" {now}|{good}",
+            "quoted": f'"{now}|{good}"',
+            "two-valid-first": f"{now}|{good}; {name}={now}|{'0' * 12}",
+            "two-invalid-first": f"{now}|{'0' * 12}; {name}={now}|{good}",
         }[kind]
         if kind == "other-name":
             name = name + "x"
@@ -417,9 +534,11 @@ class Dbg:
             env.pop("HTTP_HOST", None)
         else:
             env["HTTP_HOST"] = host
-        ck = self.cookie(cookie_kind)
+        ck = cookie_kind[4:] if cookie_kind.startswith("raw:") else self.cookie(cookie_kind)
         if ck is not None:
             env["HTTP_COOKIE"] = ck
+        env.update(DECOYS)      # forwarding headers naming a trusted host must not open any gate
+        env["wsgi.errors"] = _Sink()
         got = {}
 
         def start_response(status, headers, exc_info=None):
@@ -440,9 +559,21 @@ SECRETS = ["right", "wrong", "absent"]
 B_HOSTS = ["localhost", "a.localhost", "127.0.0.1", "localhost:5000", "127.0.0.1:80", "xn--bcher-kva.localhost",
            "evillocalhost", "localhost.evil.com", "evil.com", None, "127.0.0.2", "[::1]", "127.0.0.1.evil.com",
            "a..localhost", "LOCALHOST", "localhost."]
-COOKIES = ["valid", "valid-old", "expired", "wrong-hash", "malformed", "bad-ts", "other-name", "absent"]
+COOKIES = ["valid", "valid-old", "expired", "wrong-hash", "malformed", "bad-ts", "other-name", "absent",
+           "extra-sep", "sep-in-front", "neg-ts", "zero-ts", "empty-ts", "empty-hash", "hash-prefix", "hash-extra",
+           "hash-of-digits", "float-ts", "huge-ts", "hash-upper", "space-ts", "quoted", "two-valid-first",
+           "two-invalid-first"]
 FRAMES = ["known", "console", "unknown", "absent"]
 COOKIE_OK = {"valid", "valid-old"}
+# shapes the statement does not decide (a valid hash with an odd but parseable / future timestamp, hex case, the
+# valid cookie next to an invalid one, the valid value in cookie quotes): either verdict
+COOKIE_EITHER = {"float-ts", "huge-ts", "hash-upper", "space-ts", "quoted", "two-valid-first", "two-invalid-first"}
+
+
+def pin_gate(pin_on, cookie):
+    if not pin_on or cookie in COOKIE_OK:
+        return True
+    return None if cookie in COOKIE_EITHER else False
 
 
 def build_query(cmd, secret, frame, pin="right"):
@@ -455,7 +586,7 @@ def build_query(cmd, secret, frame, pin="right"):
     q.append({"eval": "cmd=1%2B1", "eval-named": "cmd=resource", "pinauth": "cmd=pinauth",
               "printpin": "cmd=printpin", "resource": "cmd=resource&f=style.css"}[cmd])
     if cmd == "pinauth":
-        q.append("pin=" + (PIN.replace("-", "") if pin == "right" else "000000000"))
+        q.append("pin=" + {"right": PIN.replace("-", ""), "right-dashed": PIN, "wrong": "000000000"}[pin])
     if frame != "absent":
         q.append("frm=%d" % {"known": FRAME_ID, "console": 0, "unknown": 999}[frame])
     if secret != "absent":
@@ -464,13 +595,13 @@ def build_query(cmd, secret, frame, pin="right"):
 
 
 def gate_vector(d, cmd, secret, host, cookie, frame):
-    trusted_host = may_accept(host, d.app.trusted_hosts)
+    trusted_host = may_accept(host, as_list(d.app.trusted_hosts))
     return {
         "evalcmd": cmd in ("eval", "eval-named"),
         "evalex": d.evalex,
         "host": trusted_host,
         "secret": secret == "right",
-        "pin": (not d.pin_on) or cookie in COOKIE_OK,
+        "pin": pin_gate(d.pin_on, cookie),
         "frame": frame in ("known", "console"),
     }
 
@@ -484,11 +615,12 @@ def check_dispatch(R, d, case):
     R.ev()
     R.count("executions")
     g = gate_vector(d, cmd, secret, host, cookie, frame)
-    nfalse = sum(1 for v in g.values() if not v)
+    nfalse = sum(1 for v in g.values() if v is False)      # None = the statement does not decide this gate
     if g["evalcmd"] and nfalse <= 1:
         R.nontrivial(("B", d.evalex, d.pin_on, case))
     rec = {"kind": "dispatch", "evalex": d.evalex, "pin_on": d.pin_on, "cmd": cmd, "secret": secret, "host": host,
-           "cookie": cookie, "frame": frame, "gates": g}
+           "cookie": cookie, "frame": frame, "gates": g,
+           "trusted": None if d.app.trusted_hosts == [".localhost", "127.0.0.1"] else d.app.trusted_hosts}
     R.use("B:cmd:" + cmd, "B:secret:" + secret, "B:cookie:" + cookie, "B:frame:" + frame, "B:host:%s" % host)
     if "exc" in got:
         rec["outcome"] = ("exc", got["exc"], got["text"])
@@ -507,11 +639,11 @@ def check_dispatch(R, d, case):
     if spied:
         R.use("B:spied", "B:spied:pin_on" if d.pin_on else "B:spied:pin_off", "B:spied:" + frame)
         if nfalse:
-            R.violation("dispatch:eval-reached:missing-" + "+".join(k for k, v in g.items() if not v), rec)
-    elif nfalse == 0:
+            R.violation("dispatch:eval-reached:missing-" + "+".join(k for k, v in g.items() if v is False), rec)
+    elif nfalse == 0 and all(g.values()):
         R.use("B:all-gates-true-not-spied")
     if nfalse == 1 and not spied:
-        R.use("B:blocked-by:" + next(k for k, v in g.items() if not v))
+        R.use("B:blocked-by:" + next(k for k, v in g.items() if v is False))
     if cmd in ("console", "pinauth", "printpin"):
         if answered:
             R.use("B:answered:" + cmd)
@@ -555,9 +687,396 @@ def run_B(unit, R, tier):
             R.sample({"space": "B", "evalex": evalex, "pin_on": pin_on, "case": case})
 
 
+# ------------------------------------------------------------------ B2: trusted_hosts configured on the instance
+
+TRUSTED_CONFIGS = [["localhost"], [".example.com", "[::1]"], [], "localhost", ["*"], ["*.example.com"],
+                   [".localhost:5000", "LOCALHOST"], ["[::1", "a..b", "example.com"], ["xn--bcher-kva.example"]]
+B2_HOSTS = ["localhost", "a.localhost", "127.0.0.1", "example.com", "a.example.com", "evilexample.com",
+            "a.example.com:8080", "[::1]", "[::1]:5000", "[::2]", "[::1", "*", "*.example.com", "x", "evil.com",
+            "localhost:5000", "LOCALHOST", "bücher.example", "xn--bcher-kva.example", "a..b", None, ""]
+
+
+def run_B2(unit, R, tier):
+    _k, shard, nshards = unit
+    n = 0
+    for tr in TRUSTED_CONFIGS:
+        d = Dbg(evalex=True, pin_on=True, trusted=tr)
+        T = tier == "thorough"
+        for host in B2_HOSTS:
+            for cmd in (COMMANDS if T else ("eval", "console", "pinauth", "printpin")):
+                for secret in (SECRETS if T else ("right",)):
+                    for cookie in (COOKIES if T else ("valid", "absent")):
+                        for frame in (FRAMES if T else ("known",)):
+                            n += 1
+                            if n % nshards != shard:
+                                continue
+                            check_dispatch(R, d, (cmd, secret, host, cookie, frame))
+        R.use("B2:config:%s" % (tr,))
+    R.use("B2")
+
+
+# ------------------------------------------------------------------ B3: where the PIN comes from, how it is typed
+
+PIN_MODES = ["set", "off-arg", "env:off", "env:123456789", "env:12-34-56", "env:1234", "env:12345", "env:1234567",
+             "env:12", "env:abc", "env:", "env:OFF", "generated"]
+FULLWIDTH = str.maketrans("0123456789", "０１２３４５６７８９")
+
+
+def entered_forms(pin):
+    """(label, text typed into the prompt or None for 'no pin parameter', verdict) - verdict True: the statement
+    allows acceptance (same digits, dashes / surrounding blanks aside), False: must be refused, None: undecided."""
+    D = pin.replace("-", "")
+    wrong = "".join("1" if ch != "1" else "2" for ch in D)
+    return [
+        ("digits", D, True), ("as-displayed", pin, True), ("dashes-elsewhere", D[0] + "-" + D[1:], True),
+        ("blanks-around", "  " + D + " ", True), ("newline-after", D + "\n", True),
+        ("dash-only-difference", "-" + D + "-", True),
+        ("inner-blank", D[:2] + " " + D[2:], None), ("fullwidth-digits", D.translate(FULLWIDTH), None),
+        ("wrong", wrong, False), ("one-short", D[:-1], False), ("one-more", D + "0", False),
+        ("leading-zero", "0" + D, False), ("empty", "", False), ("only-dashes", "---", False),
+        ("reversed", D[::-1] if D[::-1] != D else wrong, False), ("twice", D + D, False),
+        ("hash-of-pin", dbg.hash_pin(pin), False), ("none-literal", "None", False), ("missing", None, False),
+    ]
+
+
+class PinDbg:
+    """A DebuggedApplication whose PIN comes from the given source; nothing about the pin is overridden."""
+
+    def __init__(self, mode):
+        from urllib.parse import quote
+        self.quote = quote
+        self.mode = mode
+        self.spy = Spy("frame")
+        self.inner_hits = 0
+
+        def inner(environ, start_response):
+            self.inner_hits += 1
+            start_response("200 OK", [("Content-Type", "text/plain")])
+            return [b"inner"]
+
+        self.inner = inner
+        old = os.environ.pop("WERKZEUG_DEBUG_PIN", None)
+        try:
+            if mode.startswith("env:"):
+                os.environ["WERKZEUG_DEBUG_PIN"] = mode[4:]
+            if mode == "off-arg":
+                app = dbg.DebuggedApplication(inner, evalex=True, pin_security=False)
+                self.pin = app.pin
+            else:
+                app = dbg.DebuggedApplication(inner, evalex=True)
+                self.pin = app.pin                 # lazy initialisation happens here, under the environment
+                if mode == "set":
+                    app.pin_cookie_name
+                    app.pin = PIN
+                    self.pin = PIN
+        finally:
+            os.environ.pop("WERKZEUG_DEBUG_PIN", None)
+            if old is not None:
+                os.environ["WERKZEUG_DEBUG_PIN"] = old
+        app.secret = SECRET
+        app.frames[FRAME_ID] = self.spy
+        self.app = app
+
+    def call(self, query, host="localhost", cookie=None):
+        env = create_environ("/", query_string=query)
+        env["HTTP_HOST"] = host
+        env.update(DECOYS)
+        if cookie:
+            env["HTTP_COOKIE"] = cookie
+        got = {}
+
+        def start_response(status, headers, exc_info=None):
+            got["status"] = status
+            got["headers"] = headers
+
+        try:
+            got["body"] = b"".join(self.app(env, start_response))
+        except Exception as e:  # noqa: BLE001
+            return {"exc": type(e).__name__, "text": str(e)[:80]}
+        got["code"] = int(got["status"].split()[0])
+        return got
+
+    def pinauth(self, text, host="localhost"):
+        q = f"__debugger__=yes&cmd=pinauth&s={SECRET}"
+        if text is not None:
+            q += "&pin=" + self.quote(text)
+        got = self.call(q, host)
+        if "exc" in got:
+            return ("exc", got["exc"], got["text"]), None
+        if got["code"] != 200:
+            return ("status", got["code"]), None
+        try:
+            j = json.loads(got["body"])
+        except ValueError:
+            return ("not-json",), None
+        ck = [v.split(";")[0] for k, v in got["headers"] if k.lower() == "set-cookie" and "|" in v]
+        return ("ok", bool(j.get("auth")), bool(j.get("exhausted"))), (ck[0] if ck else None)
+
+    def evaluate(self, cookie, host="localhost", secret=SECRET):
+        del self.spy.calls[:]
+        got = self.call(f"__debugger__=yes&cmd=1%2B1&frm={FRAME_ID}&s={secret}", host, cookie)
+        return bool(self.spy.calls), got
+
+
+def check_pin_mode(R, mode):
+    d = PinDbg(mode)
+    pin = d.pin
+    R.use("B3:mode:" + mode, "B3:pin-off" if pin is None else "B3:pin-on")
+    base = {"kind": "pinmode", "mode": mode, "pin": pin}
+    # what the documented environment forms mean (noted; the statement only speaks about "off")
+    if mode.startswith("env:") and mode[4:].replace("-", "").isdecimal() and pin is not None:
+        R.use("B3:env-pin-used" if pin.replace("-", "") == mode[4:].replace("-", "") else "B3:env-pin-ignored")
+    if mode in ("env:off", "off-arg") and pin is not None:
+        R.use("B3:off-but-pin-required")       # stricter than asked: fine
+    # the other gates hold whatever the PIN source is
+    for host, secret, what in (("evil.com", SECRET, "host"), ("localhost", "nope", "secret")):
+        spied, _g = d.evaluate(None, host, secret)
+        R.ev()
+        R.count("executions")
+        if spied:
+            R.violation(f"pinmode:eval-reached:missing-{what}", dict(base, step=f"eval without {what}"))
+    spied, got = d.evaluate(None)
+    R.ev()
+    R.count("executions")
+    if pin is None:
+        R.use("B3:eval-without-cookie-pin-off:" + ("yes" if spied else "no"))
+        return
+    if spied:
+        R.violation("pinmode:eval-reached:missing-pin", dict(base, step="eval without cookie"))
+        return
+    if not (isinstance(pin, str) and pin.replace("-", "").isdecimal()):
+        R.violation("pinmode:pin-not-decimal", dict(base, step="pin property"))
+        return
+    for label, text, verdict in entered_forms(pin):
+        d.app._failed_pin_auth.value = 0
+        out, cookie = d.pinauth(text)
+        R.ev()
+        R.count("executions")
+        R.use("B3:form:" + label)
+        R.outcome(("B3", label, out[:2]))
+        rec = dict(base, step="pinauth", form=label, text=text, outcome=out)
+        if out[0] == "exc":
+            if text is None and out[1] == "BadRequestKeyError":
+                R.use("B3:missing-pin-parameter-raises")      # not an authentication; nothing more is demanded
+                continue
+            R.violation(f"pinmode:pinauth-exception:{out[1]}", rec)
+            continue
+        if out[0] != "ok":
+            R.violation("pinmode:pinauth-" + out[0], rec)
+            continue
+        auth = out[1]
+        if auth and verdict is False:
+            R.violation("pinmode:accepted-wrong-pin", rec)
+            continue
+        if bool(cookie) != auth:
+            R.violation("pinmode:cookie-issued-differs-from-auth", rec)
+            continue
+        if auth:
+            R.use("B3:accepted:" + label)
+            spied, _g = d.evaluate(cookie)
+            R.count("executions")
+            if spied:
+                R.use("B3:issued-cookie-opens-eval")
+            spied, _g = d.evaluate(cookie, "evil.com")
+            R.count("executions")
+            if spied:
+                R.violation("pinmode:eval-reached:missing-host", dict(rec, step="eval with issued cookie, bad host"))
+        else:
+            R.use("B3:refused:" + label)
+            if d.app._failed_pin_auth.value != 1:
+                R.use("B3:refusal-not-counted")
+
+
+def run_B3(unit, R, tier):
+    for mode in PIN_MODES:
+        check_pin_mode(R, mode)
+
+
+# ------------------------------------------------------------------ B4: shapes of the __debugger__ query string
+
+Q_FLAG = ["__debugger__=yes", "__debugger__=YES", "__debugger__=yes&__debugger__=no", "__debugger__=no&__debugger__=yes",
+          "__debugger__=1", "__debugger__=", ""]
+Q_CMD = ["cmd=1%2B1", "cmd=PINAUTH", "cmd=pinauth%20", "cmd=&cmd=x", "cmd=x&cmd=pinauth", "Cmd=x", "cmd=Resource&f=a",
+         "cmd=resource&f=", "cmd=printpin%00"]
+Q_SECRET = [("right", "s=" + SECRET, True), ("wrong", "s=wrong" + SECRET[5:], False), ("absent", "", False),
+            ("empty", "s=", False), ("upper", "s=" + SECRET.upper(), False), ("prefix", "s=" + SECRET[:-1], False),
+            ("extra", "s=" + SECRET + "x", False), ("blank-after", "s=" + SECRET + "%20", False),
+            ("wrong-then-right", "s=nope&s=" + SECRET, None), ("right-then-wrong", "s=" + SECRET + "&s=nope", None),
+            ("other-name", "S=" + SECRET, None), ("in-f", "f=" + SECRET, False)]
+Q_FRAME = [("known", "frm=%d" % FRAME_ID, True), ("console", "frm=0", True), ("plus", "frm=%2B" + str(FRAME_ID), None),
+           ("blank", "frm=%20" + str(FRAME_ID), None), ("zero-padded", "frm=0" + str(FRAME_ID), None),
+           ("underscore", "frm=424_242", None), ("float", "frm=%d.0" % FRAME_ID, False), ("hex", "frm=0x67932", False),
+           ("negative", "frm=-1", False), ("word", "frm=abc", False), ("empty", "frm=", False), ("absent", "", False),
+           ("unknown", "frm=999", False), ("unknown-then-known", "frm=999&frm=%d" % FRAME_ID, None),
+           ("known-then-unknown", "frm=%d&frm=999" % FRAME_ID, None), ("other-name", "FRM=%d" % FRAME_ID, None)]
+
+
+def run_B4(unit, R, tier):
+    _k, shard, nshards = unit[:3]
+    evalex, pin_on = unit[3:5] if len(unit) > 3 else (True, True)
+    d = Dbg(evalex=evalex, pin_on=pin_on)
+    n = 0
+    for flag in Q_FLAG:
+        for cmd in Q_CMD:
+            for sl, sq, sg in Q_SECRET:
+                for fl, fq, fg in Q_FRAME:
+                    n += 1
+                    if n % nshards != shard:
+                        continue
+                    query = "&".join(x for x in (flag, cmd, sq, fq) if x)
+                    for host in ("localhost", "evil.com"):
+                        for cookie in ("valid", "absent"):
+                            d.reset()
+                            got = d.request("/", query, host, cookie)
+                            R.ev()
+                            R.count("executions")
+                            g = {"evalex": evalex, "host": host == "localhost", "secret": sg,
+                                 "pin": (not pin_on) or cookie == "valid", "frame": fg}
+                            rec = {"kind": "query", "query": query, "host": host, "cookie": cookie, "gates": g}
+                            if "exc" in got:
+                                rec["outcome"] = ("exc", got["exc"], got["text"])
+                                R.violation(f"query:exception:{got['exc']}", rec)
+                                continue
+                            spied = bool(d.spy.calls or d.cspy.calls)
+                            rec["outcome"] = ("ok", got["code"], spied)
+                            R.outcome(("B4", got["code"], spied))
+                            if spied:
+                                R.use("B4:spied", "B4:spied:flag:" + flag, "B4:spied:frame:" + fl,
+                                      "B4:spied:secret:" + sl, "B4:spied:cmd:" + cmd)
+                                bad = [k for k, v in g.items() if v is False]
+                                if bad:
+                                    R.violation("query:eval-reached:missing-" + "+".join(bad), rec)
+                            if sum(1 for v in g.values() if v is False) <= 1 and all(v is not None for v in g.values()):
+                                R.nontrivial(("B4", query, host, cookie))
+    R.use("B4")
+
+
+# ------------------------------------------------------------------ B5: real traceback frames and the real console
+
+SPIED: list = []
+# evaluated in the preserved frame / the console: reaches the harness list whatever the namespace holds
+EVAL_CODE = "__import__(%22checks.c20%22,fromlist=[%22SPIED%22]).SPIED.append(1)"
+REAL_CONFIGS = [dict(), dict(show_hidden_frames=True), dict(console_init_func=lambda: {"spy": SPIED}),
+                dict(pin_logging=False, request_key="other.key", show_hidden_frames=True,
+                     console_init_func=lambda: {"spy": SPIED, "app": "shadowed"})]
+
+
+ENTERED: list = []
+
+
+class _Entered:
+    def __enter__(self):
+        ENTERED.append(1)
+
+    def __exit__(self, *a):
+        return False
+
+
+class RealDbg:
+    """Nothing stubbed but the clock and the log: a failing application produces real traceback frames, the console
+    page creates the real console frame; evaluation appends to a list the evaluated code reaches by name."""
+
+    def __init__(self, evalex, pin_on, cfg):
+        def failing(environ, start_response):
+            spy = SPIED                      # noqa: F841 - reached by name from the evaluated code
+            __traceback_hide__ = False       # noqa: F841
+            keep = environ.get("werkzeug.debug.preserve_context")
+            if keep is not None:
+                keep(_Entered())             # a context the debugger re-enters around every evaluation in a frame
+            raise RuntimeError("c20 boom")
+
+        self.cfg = cfg
+        app = dbg.DebuggedApplication(failing, evalex=evalex, **cfg)
+        self.cookie_name = app.pin_cookie_name
+        app.pin = PIN if pin_on else None
+        app.secret = SECRET
+        self.app = app
+        self.evalex = evalex
+        self.pin_on = pin_on
+
+    cookie = Dbg.cookie
+    request = Dbg.request
+
+
+def run_B5(unit, R, tier):
+    _k, evalex, pin_on, ci = unit
+    import io
+    cfg = REAL_CONFIGS[ci]
+    for h1 in ("localhost", "evil.com"):
+        for target in ("traceback", "console"):
+            for secret in SECRETS:
+                for h2 in ("localhost", "a.localhost", "127.0.0.1:80", "evil.com", "evillocalhost", None):
+                    for cookie in ("valid", "expired", "wrong-hash", "hash-prefix", "absent"):
+                        d = RealDbg(evalex, pin_on, cfg)
+                        FakeTime.now = 1_700_000_000.0
+                        del SPIED[:]
+                        del LOGGED[:]
+                        # 1. the page that creates the frame, requested with Host h1
+                        env_err = io.StringIO()
+                        if target == "traceback":
+                            env = create_environ("/")
+                            env["HTTP_HOST"] = h1
+                            env["wsgi.errors"] = env_err
+                            got = {}
+                            try:
+                                page = b"".join(d.app(env, lambda s, h, e=None: got.setdefault("status", s)))
+                            except Exception as e:  # noqa: BLE001
+                                R.violation("real:traceback-page-exception:" + type(e).__name__,
+                                            {"kind": "real", "evalex": evalex, "pin_on": pin_on, "cfg": ci,
+                                             "h1": h1, "target": target})
+                                continue
+                            ids = [fid for fid, fr in d.app.frames.items() if "spy" in (getattr(fr, "local_ns", None) or {})]
+                            if not ids:
+                                raise core.Broken("real traceback: the failing application's frame was not preserved")
+                            frm = ids[0]
+                            R.use("B5:page:evalex-flag:%s" % (b"EVALEX = true" in page),
+                                  "B5:page:evalex-trusted-flag:%s" % (b"EVALEX_TRUSTED = true" in page))
+                            created = True
+                        else:
+                            got1 = d.request("/console", "", h1, "absent")
+                            created = 0 in d.app.frames
+                            frm = 0
+                            if created and not may_accept(h1, d.app.trusted_hosts):
+                                R.violation("real:console-frame-created-for-untrusted-host",
+                                            {"kind": "real", "evalex": evalex, "pin_on": pin_on, "cfg": ci,
+                                             "h1": h1, "target": target, "outcome": got1.get("code")})
+                        # 2. the evaluation request
+                        query = "__debugger__=yes&cmd=" + EVAL_CODE + f"&frm={frm}"
+                        if secret != "absent":
+                            query += "&s=" + (SECRET if secret == "right" else "wrong" + SECRET[5:])
+                        del ENTERED[:]
+                        got2 = d.request("/", query, h2, cookie)
+                        R.ev()
+                        R.count("executions", 2)
+                        g = {"evalex": evalex, "host": may_accept(h2, d.app.trusted_hosts), "secret": secret == "right",
+                             "pin": pin_gate(pin_on, cookie), "frame": bool(created)}
+                        rec = {"kind": "real", "evalex": evalex, "pin_on": pin_on, "cfg": ci, "h1": h1,
+                               "target": target, "secret": secret, "h2": h2, "cookie": cookie, "gates": g}
+                        if "exc" in got2:
+                            rec["outcome"] = ("exc", got2["exc"], got2["text"])
+                            R.violation("real:exception:" + got2["exc"], rec)
+                            continue
+                        spied = bool(SPIED) or bool(ENTERED)    # code ran: the expression, or a preserved context
+                        if ENTERED:
+                            R.use("B5:preserved-context-entered")
+                        rec["outcome"] = ("ok", got2["code"], bool(SPIED), bool(ENTERED))
+                        R.outcome(("B5", target, got2["code"], spied))
+                        bad = [k for k, v in g.items() if v is False]
+                        if spied:
+                            R.use("B5:evaluated:" + target, "B5:evaluated:cfg%d" % ci)
+                            if bad:
+                                R.violation("real:eval-reached:missing-" + "+".join(bad), rec)
+                        elif not bad:
+                            R.use("B5:all-gates-open-not-evaluated:" + target)
+                        if len(bad) <= 1:
+                            R.nontrivial(("B5", evalex, pin_on, ci, h1, target, secret, h2, cookie))
+    R.use("B5")
+
+
 # ================================================================== space C: the PIN attempt machine
 
-ATTEMPTS = [(c, p) for c in ("absent", "valid", "expired", "wrong-hash", "malformed") for p in ("right", "wrong")]
+ATTEMPTS = [(c, p) for c in ("absent", "valid", "expired", "wrong-hash", "malformed") for p in ("right", "wrong")] \
+    + [("absent", "right-dashed")]
 LOCK_AFTER = 10   # "once more than ten PIN attempts have failed"
 
 
@@ -596,7 +1115,7 @@ def ref_step(m, attempt):
     if pin == "wrong" and cookie != "wrong-hash":
         wrong = min(wrong + 1, LOCK_AFTER + 1)
         return (wrong, wrong > LOCK_AFTER), None
-    if pin == "right" and cookie != "wrong-hash":
+    if pin.startswith("right") and cookie != "wrong-hash":
         return (0, False), None   # a success resets (if the implementation refuses here that is its business)
     return m, None                # wrong-hash cookie: the PIN is not looked at
 
@@ -621,7 +1140,7 @@ def judge(R, hist, attempt, out, demand, counter_before, real):
             R.use("C:exhausted-reported")
     if auth:
         R.use("C:auth-by-cookie" if attempt[0] == "valid" else "C:auth-by-pin")
-        if attempt[0] != "valid" and attempt[1] != "right":
+        if attempt[0] != "valid" and not attempt[1].startswith("right"):
             R.violation("pin:accepted-wrong-pin", rec)
             return False
         if attempt[0] == "wrong-hash":
@@ -770,7 +1289,12 @@ def units(tier):
     u += [("A", 3, i, n3) for i in range(n3)]
     for evalex in (True, False):
         for pin_on in (True, False):
-            u += [("B", evalex, pin_on, i, 6) for i in range(6)]
+            u += [("B", evalex, pin_on, i, 12) for i in range(12)]
+            u += [("B5", evalex, pin_on, ci) for ci in range(len(REAL_CONFIGS))]
+    u += [("A", "r2", i, 16) for i in range(16)]
+    u += [("B2", i, 48 if T else 2) for i in range(48 if T else 2)] + [("B3",)] + [("B4", i, 12) for i in range(12)]
+    if T:
+        u += [("B4", i, 12, ev, po) for i in range(12) for ev, po in ((True, False), (False, True), (False, False))]
     if T:
         u += [("Cseq", "full", 5, i, 32) for i in range(32)]
         u += [("Cseq", "reduced", 7, i, 32) for i in range(32)]
@@ -786,6 +1310,14 @@ def run_unit(unit, R, tier):
         run_A(unit, R, tier)
     elif k == "B":
         run_B(unit, R, tier)
+    elif k == "B2":
+        run_B2(unit, R, tier)
+    elif k == "B3":
+        run_B3(unit, R, tier)
+    elif k == "B4":
+        run_B4(unit, R, tier)
+    elif k == "B5":
+        run_B5(unit, R, tier)
     elif k == "Cgraph":
         run_C_graph(R, tier)
     elif k == "Clong":
@@ -805,6 +1337,14 @@ def finalize(R, tier):
     need |= {"B:spied", "B:spied:pin_on", "B:spied:pin_off", "B:spied:known", "B:spied:console",
              "B:answered:console", "B:answered:pinauth", "B:answered:printpin", "B:cookie-issued", "B:pin-logged"}
     need |= {"B:blocked-by:" + g for g in ("evalex", "host", "secret", "pin", "frame")}
+    need |= {"A:api:" + a for a in APIS2} | {"A:value-checked", "A:default-port-stripped", "A:trusted-as-str",
+                                              "A:unvalidated:rej", "A:unvalidated:acc"}
+    need |= {"B2", "B4", "B4:spied", "B5", "B5:evaluated:traceback", "B5:evaluated:console", "B3:pin-off", "B3:pin-on",
+             "B3:accepted:digits", "B3:accepted:as-displayed", "B3:accepted:blanks-around", "B3:refused:wrong",
+             "B3:refused:one-short", "B3:refused:one-more", "B3:refused:empty", "B3:issued-cookie-opens-eval",
+             "B3:env-pin-used", "B5:preserved-context-entered", "B5:page:evalex-flag:True", "B5:page:evalex-flag:False"}
+    need |= {"B3:mode:" + m for m in PIN_MODES} | {"B2:config:%s" % (t,) for t in TRUSTED_CONFIGS}
+    need |= {"B5:evaluated:cfg%d" % i for i in range(len(REAL_CONFIGS))}
     need |= {"C:graph-closed", "C:long", "C:seqs", "C:demand-refuse", "C:exhausted-reported", "C:auth-by-pin",
              "C:auth-by-cookie"}
     missing = need - R.used
@@ -832,17 +1372,19 @@ def finalize(R, tier):
 def replay(rec):
     k = rec.get("kind")
     if k == "host":
-        trusted = list(rec["trusted"])
+        trusted = rec["trusted"] if (rec["trusted"] is None or isinstance(rec["trusted"], str)) else list(rec["trusted"])
         server = tuple(rec["server"]) if rec.get("server") else None
         out = call_api(rec["api"], rec["host"], trusted, server)
         eff = effective_host(rec["host"], server)
-        ok = may_accept(eff, trusted)
-        bad = out[0] == "exc" or (out[0] == "acc" and not ok)
+        ok = True if trusted is None else may_accept(eff, as_list(trusted))
+        bad = out[0] == "exc" or (out[0] == "acc" and not ok) or (
+            out[0] == "acc" and rec["api"] in HOST_APIS and out[1] != expected_host_value(rec["api"], eff))
         return bad, (f"{rec['api']}(host={rec['host']!r}, trusted={trusted!r}, server={server!r})\n"
                      f"reference: {'may be accepted' if ok else 'must be rejected (False / SecurityError)'}\n"
                      f"observed : {out}")
     if k == "dispatch":
-        d = Dbg(evalex=rec["evalex"], pin_on=rec["pin_on"])
+        tr = rec.get("trusted")
+        d = Dbg(evalex=rec["evalex"], pin_on=rec["pin_on"], trusted=(tr if tr is None or isinstance(tr, str) else list(tr)))
         R = core.Recorder()
         check_dispatch(R, d, (rec["cmd"], rec["secret"], rec["host"], rec["cookie"], rec["frame"]))
         sigs = sorted(s for (_c, s) in R.viol)
